@@ -8,6 +8,10 @@
 //   io       executes a grammar case file (--arg cases=F --arg res=F) and writes a dump log (--arg log=F)
 //            for the independent Python oracles in vf/oracles/c09.py
 #include <errno.h>
+#include <fcntl.h>
+#include <poll.h>
+#include <sys/wait.h>
+#include <termios.h>
 #include <math.h>
 #include <sys/uio.h>
 
@@ -1000,6 +1004,225 @@ static void overload_suite(vf::Rng& r) {
 }
 
 // ---------------------------------------------------------------------------------------------
+// streams: the auto-colour decision of print_data (neither USE_COLOR nor DISABLE_COLOR) must depend on the stream
+// of *this* call only. Each of the 6 orders of first use of {pty, tmpfile, pipe} runs in a forked child, started
+// before this process has made any print_data call, so that the process-wide first call really goes to that kind.
+
+struct OutStream {
+  const char* kind = "";
+  FILE* f = nullptr;
+  int rfd = -1;  // where the output is read back (pty master / pipe read end); -1 = read the file itself
+  bool tty = false;
+};
+
+static bool open_pty(OutStream* o) {
+  int m = posix_openpt(O_RDWR | O_NOCTTY);
+  if (m < 0) return false;
+  if (grantpt(m) != 0 || unlockpt(m) != 0) {
+    close(m);
+    return false;
+  }
+  const char* name = ptsname(m);
+  int sfd = name ? open(name, O_RDWR | O_NOCTTY) : -1;
+  if (sfd < 0) {
+    close(m);
+    return false;
+  }
+  struct termios t;
+  if (tcgetattr(sfd, &t) == 0) {
+    cfmakeraw(&t);  // no \n -> \r\n translation, no echo
+    tcsetattr(sfd, TCSANOW, &t);
+  }
+  fcntl(m, F_SETFL, fcntl(m, F_GETFL) | O_NONBLOCK);
+  o->kind = "pty";
+  o->f = fdopen(sfd, "w");
+  o->rfd = m;
+  o->tty = isatty(sfd);
+  return o->f != nullptr && o->tty;
+}
+
+static bool open_pipe(OutStream* o) {
+  int fds[2];
+  if (pipe(fds) != 0) return false;
+  fcntl(fds[0], F_SETFL, fcntl(fds[0], F_GETFL) | O_NONBLOCK);
+  o->kind = "pipe";
+  o->f = fdopen(fds[1], "w");
+  o->rfd = fds[0];
+  return o->f != nullptr;
+}
+
+static string drain_fd(int fd, size_t expect) {
+  string got;
+  char buf[8192];
+  int waited = 0;
+  for (;;) {
+    ssize_t n = read(fd, buf, sizeof(buf));
+    if (n > 0) {
+      got.append(buf, n);
+      continue;
+    }
+    if (n == 0) break;
+    if (errno == EINTR) continue;
+    if (errno != EAGAIN && errno != EWOULDBLOCK) break;
+    // nothing available right now: wait longer while output is still owed, briefly once it is complete (extras?)
+    int budget = got.size() < expect ? 1000 : 15;
+    if (waited >= budget) break;
+    struct pollfd pf = {fd, POLLIN, 0};
+    int step = got.size() < expect ? 50 : 15;
+    poll(&pf, 1, step);
+    waited += step;
+  }
+  return got;
+}
+
+static void report(int fd, const char* tag, const string& a, const string& b = "", const string& c = "") {
+  string line = string(tag) + "\x1f" + a + "\x1f" + b + "\x1f" + c + "\n";
+  size_t off = 0;
+  while (off < line.size()) {
+    ssize_t n = write(fd, line.data() + off, line.size() - off);
+    if (n <= 0) break;
+    off += n;
+  }
+}
+
+static const int STREAM_ORDERS[6][3] = {{0, 1, 2}, {0, 2, 1}, {1, 0, 2}, {1, 2, 0}, {2, 0, 1}, {2, 1, 0}};  // 0 pty 1 tmpfile 2 pipe
+
+static void streams_child(int order, int rep_fd, uint64_t seed) {
+  vf::Rng r(seed * 31 + order);
+  OutStream st[3];
+  bool have[3];
+  have[0] = open_pty(&st[0]);
+  st[1].kind = "tmpfile";
+  st[1].f = tmpfile();
+  have[1] = st[1].f != nullptr;
+  have[2] = open_pipe(&st[2]);
+  if (!have[0]) report(rep_fd, "count", "streams_no_pty");
+  static const char* KN[3] = {"pty", "tmpfile", "pipe"};
+  const int* ord = STREAM_ORDERS[order];
+  const char* first_kind = nullptr;
+  for (int j = 0; j < 3 && !first_kind; j++)
+    if (have[ord[j]]) first_kind = KN[ord[j]];
+  if (!first_kind) return;
+  int rounds = 10;
+  for (int round = 0; round < rounds; round++) {
+    for (int j = 0; j < 3; j++) {
+      int si = ord[j];
+      if (!have[si]) continue;
+      OutStream& o = st[si];
+      for (int wp = 0; wp < 2; wp++) {
+        size_t len = 1 + r.below(40);
+        DumpCase k = random_case(r, len);
+        if (reaches_2_64(k.addr, len)) k.addr -= 64;
+        k.dkind = r.chance(1, 2) ? 7 : k.dkind;
+        if (k.dkind == 7) k.data = make_data(r, 7, len);  // edge bytes: non-printables make colour visible without prev
+        k.flags &= ~(uint64_t)(F_COLOR | F_NOCOLOR);
+        k.prev = make_prev(r, 1 + (int)r.below(2), k.data, k.addr);
+        k.has_prev = wp;
+        // explicit colour flags now and then: they must win over the stream kind
+        int explicit_mode = (round >= 2 && r.chance(1, 5)) ? 1 + (int)r.below(2) : 0;  // 1 = USE_COLOR, 2 = DISABLE_COLOR
+        uint64_t call_flags = k.flags | (explicit_mode == 1 ? F_COLOR : explicit_mode == 2 ? F_NOCOLOR : 0);
+        bool want_color = explicit_mode == 1 || (explicit_mode == 0 && o.tty);
+        DumpCase q = k;
+        q.flags = k.flags | (want_color ? F_COLOR : 0);
+        string want, err;
+        C->crumb_s(fmt("streams order=%d round=%d target=%s first=%s addr=0x%" PRIX64 " flags=0x%" PRIX64 " len=%zu data=", order, round, o.kind, first_kind, k.addr, call_flags, len) + vf::hex(k.data));
+        if (!render_single(q, &want, &err)) continue;  // judged elsewhere
+        const void* pv = wp ? k.prev.data() : nullptr;
+        vector<struct iovec> cv = {{(void*)k.data.data(), len}};
+        vector<struct iovec> pvv = {{(void*)k.prev.data(), k.prev.size()}};
+        int form = (int)r.below(4);
+        static const char* FORM[4] = {"print_data(FILE*,string)", "print_data(FILE*,ptr,size)", "print_data(FILE*,vector)", "print_data(FILE*,iovec*,n)"};
+        string got;
+        vf::poison_errno();
+        try {
+          switch (form) {
+            case 0: phosg::print_data(o.f, k.data, k.addr, pv, call_flags); break;
+            case 1: phosg::print_data(o.f, k.data.data(), len, k.addr, pv, call_flags); break;
+            case 2: phosg::print_data(o.f, cv, k.addr, wp ? &pvv : nullptr, call_flags); break;
+            default: phosg::print_data(o.f, cv.data(), 1, k.addr, wp ? pvv.data() : nullptr, wp ? 1 : 0, call_flags); break;
+          }
+        } catch (const std::exception& e) {
+          report(rep_fd, "viol", fmt("streams:%s:throws", o.kind), e.what(), k.describe());
+          continue;
+        }
+        if (o.rfd >= 0) {
+          fflush(o.f);
+          got = drain_fd(o.rfd, want.size());
+        } else {
+          got = read_stream(o.f);
+        }
+        report(rep_fd, "eval", "1");
+        const char* mode = explicit_mode == 1 ? "explicit-USE_COLOR" : explicit_mode == 2 ? "explicit-DISABLE_COLOR" : "auto-colour";
+        if (got != want) {
+          bool esc_got = got.find('\x1b') != string::npos, esc_want = want.find('\x1b') != string::npos;
+          const char* how = (esc_got && !want_color) ? "coloured-although-not-a-terminal" : (!esc_got && esc_want) ? "not-coloured-on-a-terminal" : "differs-from-format_data";
+          report(rep_fd, "viol", fmt("streams:%s:%s:%s-first:%s", o.kind, mode, first_kind, how),
+              fmt("print_data to a %s does not print what format_data %s USE_COLOR returns (first print_data call of the process went to a %s)", o.kind, want_color ? "with" : "without", first_kind),
+              fmt("%s order=%s-%s-%s round=%d ", FORM[form], KN[ord[0]], KN[ord[1]], KN[ord[2]], round) + k.describe() + fmt(" call_flags=0x%" PRIX64, call_flags) + " got=[" + esc_text(got).substr(0, 400) + "] want=[" + esc_text(want).substr(0, 400) + "]");
+        }
+        report(rep_fd, "cls", fmt("streams:%s:%s:%s-first", o.kind, mode, first_kind));
+      }
+    }
+  }
+  report(rep_fd, "cls", fmt("streams:order:%s-%s-%s", KN[ord[0]], KN[ord[1]], KN[ord[2]]));
+}
+
+static void streams_suite() {
+  for (int order = 0; order < 6; order++) {
+    if (!C->mine((uint64_t)order)) continue;
+    int fds[2];
+    if (pipe(fds) != 0) {
+      fprintf(stderr, "[harness-error] pipe failed\n");
+      exit(3);
+    }
+    fflush(nullptr);
+    pid_t pid = fork();
+    if (pid < 0) {
+      fprintf(stderr, "[harness-error] fork failed\n");
+      exit(3);
+    }
+    if (pid == 0) {
+      close(fds[0]);
+      streams_child(order, fds[1], C->seed);
+      close(fds[1]);
+      _exit(0);
+    }
+    close(fds[1]);
+    string all;
+    char buf[8192];
+    ssize_t n;
+    while ((n = read(fds[0], buf, sizeof(buf))) > 0 || (n < 0 && errno == EINTR))
+      if (n > 0) all.append(buf, n);
+    close(fds[0]);
+    int status = 0;
+    while (waitpid(pid, &status, 0) < 0 && errno == EINTR) {
+    }
+    size_t pos = 0;
+    while (pos < all.size()) {
+      size_t e = all.find('\n', pos);
+      if (e == string::npos) e = all.size();
+      string line = all.substr(pos, e - pos);
+      pos = e + 1;
+      vector<string> f;
+      size_t q = 0;
+      for (;;) {
+        size_t u = line.find('\x1f', q);
+        f.push_back(line.substr(q, u == string::npos ? string::npos : u - q));
+        if (u == string::npos) break;
+        q = u + 1;
+      }
+      while (f.size() < 4) f.push_back("");
+      if (f[0] == "viol") C->violation(f[1], f[2], f[3]);
+      else if (f[0] == "cls") C->cls(f[1]);
+      else if (f[0] == "count") C->count(f[1]);
+      else if (f[0] == "eval") C->evaluations++;
+    }
+    if (!WIFEXITED(status) || WEXITSTATUS(status) != 0)
+      C->violation("streams:child-died", fmt("stream-history child for order %d ended with status 0x%x (sanitizer report on stderr, if any)", order, status), fmt("order=%d", order));
+  }
+}
+
+// ---------------------------------------------------------------------------------------------
 // io: grammar case execution + dump log for the Python oracles
 
 static void put32(FILE* f, uint32_t v) { fwrite(&v, 4, 1, f); }
@@ -1121,6 +1344,7 @@ int main(int argc, char** argv) {
   uint64_t round = strtoull(c.arg("round", "0").c_str(), nullptr, 0);
   vf::Rng r = c.rng(round);
   auto want = [&](const char* s) { return only.empty() ? strcmp(s, "io") != 0 : only == s; };
+  if (want("streams")) streams_suite();  // first: no print_data call may precede the forked children
   if (want("rt")) rt_suite(r);
   if (want("total")) total_suite(r);
   if (want("iov")) iov_suite(r);
